@@ -24,7 +24,7 @@ class C12Run(E2Run):
     prop = "C12"
 
     def profile(self) -> Dict:
-        return {"topologies": ["lan", "routed", "routed2", "firewall", "wireless"], "max_hosts_per_subnet": 2, "tight_links": 0.0, "random_acl_rules": (0, 1), "permit_all_rule": 1.0, "avoid": ["listen_on_ports", "routing_loop"]}
+        return {"topologies": ["lan", "routed", "routed2", "firewall", "wireless"], "max_hosts_per_subnet": 2, "tight_links": 0.0, "random_acl_rules": (0, 1), "permit_all_rule": 1.0, "avoid": ["listen_on_ports"]}
 
     # ------------------------------------------------------------------------------------------------------------
     def after_build(self):
